@@ -43,6 +43,13 @@ Section C17.
     rewrite ?len_plus0. repeat split; try (repeat constructor); auto.
   Qed.
 
+  Lemma blackjax_log_prob_site z beta n0 :
+    site_ok (blackjax_log_prob_calls Pi Tinv_pt z beta n0) (blackjax_log_prob_count Tinv_pt z beta n0) n0.
+  Proof.
+    unfold site_ok, blackjax_log_prob_calls, blackjax_log_prob_count, prior_first. cbv zeta. cbn [lik_points prior_called_before].
+    rewrite ?len_plus0. repeat split; try (repeat constructor); auto.
+  Qed.
+
   Lemma mcmc_log_prob_site z n0 :
     site_ok (mcmc_log_prob_calls Pi Tinv_pt z n0) (mcmc_log_prob_count Tinv_pt z n0) n0.
   Proof.
